@@ -503,4 +503,11 @@ def parseSignedMessage (msgIn : Str) : Except Err (Str × Str × Str) :=
             if addr.isEmpty ∨ addr = sig then .error .encodingError
             else .ok (msg, addr, sig)
 
+/-- `sign_message(key, message, verbose)` on a key OBJECT: `key.secret_exponent()` is `None` for a public key, and
+"not secret_exponent" raises `ValueError` before anything is hashed or signed -/
+def signMessageWithKey (env : Env) (se : Option Int) (comp : Bool) (message : Str) (verbose : Bool) : Except Err Str :=
+  match se with
+  | none => .error .valueError
+  | some d => signMessage env d comp message verbose
+
 end Pycoin.MsgSigning
